@@ -523,3 +523,49 @@ def ob_resume_requirements(nw: int, kv: int, sub: bool, early: bool, second: boo
             raise vlib.boot.HarnessError("resume run does not quiesce")
         complete(first_ip())
     return stat["bad"] == 0 and stat["done"] <= 1 and stat["asks"] == 0
+
+
+# --------------------------------------------------------------------------------------------------------------- default waiter ids
+
+
+def _req(k: int):
+    """0: none, 1: {"k": 1}, 2: {"k": 2} (same key, other value), 3: {"j": 1} (other key), 4: {"k": 1, "j": 1}"""
+    return [None, {"k": 1}, {"k": 2}, {"j": 1}, {"k": 1, "j": 1}][k]
+
+
+@obligation(quick=90, thorough=200,
+            what="waits WITHOUT an explicit waiter_id: the real wait_for_event gives two waits the same waiter id iff they wait for the same event "
+                 "type with equal requirements (keys AND values) — so a replayed wait finds its own waiter, and two different waits of one step "
+                 "(e.g. requirements={'qid': 1} and {'qid': 2}) never share one; with the second wait registered through the real reducer both "
+                 "waiters exist side by side, each published its waiter_event once",
+            bounds={"event types": 2, "requirements": "none / {k:1} / {k:2} / {j:1} / {k:1,j:1}"})
+def ob_default_waiter_id(t1: bool, r1: int, t2: bool, r2: int) -> bool:
+    """
+    pre: 0 <= r1 <= 4 and 0 <= r2 <= 4
+    post: _
+    """
+    t1, t2, r1, r2 = concb(t1), concb(t2), conc(r1, 0, 4), conc(r2, 0, 4)
+    ty1, ty2 = (Resp if t1 else SubResp), (Resp if t2 else SubResp)
+    from vlib.world import shared as _shared
+
+    empty = _shared("a")
+    k1, add1, _ = call_wait(empty, ty1, waiter_event=ASK, requirements=_req(r1), timeout=None)
+    k2, add2, _ = call_wait(empty, ty2, waiter_event=ASK, requirements=_req(r2), timeout=None)
+    if k1 != W_WAIT or k2 != W_WAIT:
+        return False
+    same_wait = (ty1 is ty2) and (_req(r1) or {}) == (_req(r2) or {})
+    if (add1.waiter_id == add2.waiter_id) != same_wait:
+        return False
+    # determinism: asking again gives the same id (a replay must find its waiter)
+    k1b, add1b, _ = call_wait(empty, ty1, waiter_event=ASK, requirements=_req(r1), timeout=None)
+    if add1b.waiter_id != add1.waiter_id:
+        return False
+    # both registered through the real reducer (two invocations of step a, one wait each)
+    st = _world_a(2, True, True, False, 0, K_ABSENT, False)
+    st, c1 = _reduce_tick(mk_step_result("a", 0, W_EV, [add1]), st, 1, "r")
+    st, c2 = _reduce_tick(mk_step_result("a", 1, W_EV, [add2]), st, 1, "r")
+    asks = len([c for c in c1 + c2 if isinstance(c, CommandPublishEvent) and c.event is ASK])
+    ws = st.workers["a"].collected_waiters
+    if same_wait:
+        return len(ws) == 1 and asks == 1
+    return len(ws) == 2 and asks == 2
